@@ -74,7 +74,7 @@ def _record(ss, ps, rng, n):
     k, val = rs()
     seqr = ps.PacketSequencer(_mk_start(ss, k, val))
     ev = []
-    p_set = rng.choice([0.02, 0.1, 0.3])
+    p_set = rng.choice([0.02, 0.1, 0.3]) if n <= 200 else rng.choice([0.0, 0.002, 0.01])
     for _ in range(n):
         if rng.random() < p_set:
             k2, v2 = rs()
@@ -126,6 +126,8 @@ def run(tier, corrupt=False):
         rng = random.Random(seed() * 7919 + 13)
         ntr = 3000 if tier == "quick" else 20000
         traces = [_record(ss, ps, rng, rng.randrange(1, 201)) for _ in range(ntr)]
+        # a few very long histories: hidden state that only wraps after hundreds of requests (several passes over 253 / 256 / 1000)
+        traces += [_record(ss, ps, rng, rng.randrange(600, 2600)) for _ in range(12 if tier == "quick" else 100)]
         if corrupt:
             e = next(e for e in traces[5]["events"] if e["op"] == "next")
             e["ret"] += 10
@@ -139,7 +141,7 @@ def run(tier, corrupt=False):
         cov["states"] += res.distinct
         cov["transitions"] += res.generated
     cov.update({"traces_validated_against_impl": len(hists) + acc + len(rej), "replayed_histories": len(hists), "replayed_steps": steps,
-                "recorded_traces": ntr, "recorded_events": sum(len(t["events"]) for t in traces), "rejected": len(rej),
+                "recorded_traces": len(traces), "recorded_events": sum(len(t["events"]) for t in traces), "rejected": len(rej),
                 "samples": [{"R": _hist_key(hists[len(hists) // 2], len(hists[0]))}, {"V": traces[0]["events"][:12]}],
                 "exhaustive": False,
                 "explanation": "R is exhaustive for the shape n1*next,set,n2*next,set,n3*next (runs 0..12, 5 starts); V samples long histories"})
